@@ -21,6 +21,7 @@ import (
 	"github.com/ethereum/go-ethereum/accounts/abi/bind"
 	"github.com/ethereum/go-ethereum/common"
 	"github.com/ethereum/go-ethereum/common/hexutil"
+	"github.com/ethereum/go-ethereum/core/types"
 	"github.com/ethereum/go-ethereum/crypto"
 	"github.com/ethereum/go-ethereum/ethclient/simulated"
 	"pgregory.net/rapid"
@@ -101,6 +102,40 @@ func (noReorgs) GetLastReorgEvent(context.Context) (reorgdetector.ReorgEvent, er
 	return reorgdetector.ReorgEvent{}, nil
 }
 
+// sealAll commits a block and makes sure every transaction sent since the last call is mined successfully: under load the
+// simulated backend's pool can promote a transaction after the block was sealed, which then lands in the next block. A
+// reverted or never-mined transaction makes the case INCONCLUSIVE (the harness, not the node, is at fault). Returns the
+// highest block that holds one of the transactions.
+func sealAll(client interface {
+	Commit() common.Hash
+	Client() simulated.Client
+}, txs []*types.Transaction) (uint64, error) {
+	client.Commit()
+	last := uint64(0)
+	for _, tx := range txs {
+		var rc *types.Receipt
+		for try := 0; ; try++ {
+			var err error
+			rc, err = client.Client().TransactionReceipt(bg, tx.Hash())
+			if err == nil && rc != nil {
+				break
+			}
+			if try > 200 {
+				return 0, fmt.Errorf("transaction %s never mined: %v", tx.Hash(), err)
+			}
+			time.Sleep(5 * time.Millisecond)
+			client.Commit()
+		}
+		if rc.Status != types.ReceiptStatusSuccessful {
+			return 0, fmt.Errorf("transaction %s reverted", tx.Hash())
+		}
+		if rc.BlockNumber.Uint64() > last {
+			last = rc.BlockNumber.Uint64()
+		}
+	}
+	return last, nil
+}
+
 func waitProcessed(get func() (uint64, error), target uint64) error {
 	dl := time.Now().Add(180 * time.Second)
 	for time.Now().Before(dl) {
@@ -160,6 +195,7 @@ func TestC01EVM(t *testing.T) {
 		lastEventBlock := uint64(0)
 		for b := 0; b < nBlocks; b++ {
 			n := rapid.SampledFrom([]int{0, 1, 1, 2, 3, 5}).Draw(rt, "perBlock")
+			var sent []*types.Transaction
 			for i := 0; i < n; i++ {
 				destNet := rapid.SampledFrom([]uint32{1, 2, 1 << 31, 1<<32 - 1}).Draw(rt, "destNet")
 				destAddr := genAddr.Draw(rt, "destAddr")
@@ -173,28 +209,34 @@ func TestC01EVM(t *testing.T) {
 					if len(meta) > 600 {
 						meta = meta[:600]
 					}
-					if _, err := bridge.BridgeMessage(&auth, destNet, destAddr, rapid.Bool().Draw(rt, "forceGER"), meta); err != nil {
+					tx, err := bridge.BridgeMessage(&auth, destNet, destAddr, rapid.Bool().Draw(rt, "forceGER"), meta)
+					if err != nil {
 						rt.Fatalf("INCONCLUSIVE: bridgeMessage: %v", err)
 					}
+					sent = append(sent, tx)
 					d.LeafType, d.OriginNetwork, d.OriginAddress, d.Metadata = 1, 0, setup.UserAuth.From, meta
 				} else {
 					if amount.Sign() == 0 {
 						amount = big.NewInt(7)
 						auth.Value, d.Amount = amount, amount
 					}
-					if _, err := bridge.BridgeAsset(&auth, destNet, destAddr, amount, common.Address{}, rapid.Bool().Draw(rt, "forceGER"), nil); err != nil {
+					tx, err := bridge.BridgeAsset(&auth, destNet, destAddr, amount, common.Address{}, rapid.Bool().Draw(rt, "forceGER"), nil)
+					if err != nil {
 						rt.Fatalf("INCONCLUSIVE: bridgeAsset: %v", err)
 					}
+					sent = append(sent, tx)
 					d.LeafType = 0 // native token: origin network 0, origin address 0, empty metadata
 				}
 				deps = append(deps, d)
 				front.Add(refBridgeLeaf(d))
 				roots = append(roots, front.Root())
 			}
-			client.Commit()
+			lb, err := sealAll(client, sent)
+			if err != nil {
+				rt.Fatalf("INCONCLUSIVE: %v", err)
+			}
 			if n > 0 {
-				h, _ := client.Client().HeaderByNumber(bg, nil)
-				lastEventBlock = h.Number.Uint64()
+				lastEventBlock = lb
 			}
 			// contract vs reference at the end of every block
 			cr, err := bridge.GetRoot(nil)
@@ -305,11 +347,14 @@ func TestC11EVM(t *testing.T) {
 		lastEventBlock := uint64(0)
 		for b := 0; b < nBlocks; b++ {
 			nTx := rapid.SampledFrom([]int{0, 1, 1, 2, 4}).Draw(rt, "perBlock")
+			var sent []*types.Transaction
 			for i := 0; i < nTx; i++ {
 				if rapid.Bool().Draw(rt, "mainnetUpdate") {
-					if _, err := gerSC.UpdateExitRoot(&ta, genHash.Draw(rt, "mer")); err != nil {
+					tx, err := gerSC.UpdateExitRoot(&ta, genHash.Draw(rt, "mer"))
+					if err != nil {
 						rt.Fatalf("INCONCLUSIVE: updateExitRoot: %v", err)
 					}
+					sent = append(sent, tx)
 				} else {
 					id := uint32(rapid.IntRange(1, 64).Draw(rt, "rollupID"))
 					var ler common.Hash
@@ -323,9 +368,11 @@ func TestC11EVM(t *testing.T) {
 					default:
 						ler = genHash.Draw(rt, "ler")
 					}
-					if _, err := verifySC.VerifyBatches(&ta, id, uint64(b), ler, genHash.Draw(rt, "stateRoot"), rapid.Bool().Draw(rt, "updateGER")); err != nil {
+					tx, err := verifySC.VerifyBatches(&ta, id, uint64(b), ler, genHash.Draw(rt, "stateRoot"), rapid.Bool().Draw(rt, "updateGER"))
+					if err != nil {
 						rt.Fatalf("INCONCLUSIVE: verifyBatches: %v", err)
 					}
+					sent = append(sent, tx)
 					if ler != (common.Hash{}) && vals[id] != ler {
 						effective++
 					}
@@ -335,10 +382,12 @@ func TestC11EVM(t *testing.T) {
 					}
 				}
 			}
-			client.Commit()
+			lb, err := sealAll(client, sent)
+			if err != nil {
+				rt.Fatalf("INCONCLUSIVE: %v", err)
+			}
 			if nTx > 0 {
-				h, _ := client.Client().HeaderByNumber(bg, nil)
-				lastEventBlock = h.Number.Uint64()
+				lastEventBlock = lb
 			}
 		}
 		client.Commit()
